@@ -1,13 +1,15 @@
 import H5V.Props.C02ParseTotal
 import H5V.Props.C04TB2
 import H5V.Props.C04Term
+import H5V.Lemmas.HtmlJointTotalAns
 /-!
 Totality of the joint HTML parse (tokenizer model with the tree-builder model as its sink), part 1: the loop of
 `Parser::process` (`Joint.processChunk`: `Tokenizer::feed`, resumed after every Script / EncodingIndicator pause).
 
 * `tok_safe`: one token, from a tree-builder state satisfying the C04 invariant `TI`, in keeping with the "text"
   protocol, fails at most `BenignStrict`ly (no fuel allowance): `sat_processTokens2` on a one-token list.
-* `absorb_safe`: the delivery of the tokens of one tokenizer step (`absorb`) succeeds or fails with `JErr`.
+* `absorb_safe`: the delivery of the tokens of one tokenizer step (`absorb`) succeeds or fails with `JErr`; the
+  tokenizer's `process_token_and_continue` assertion never fires (`A.processToken_nontag_continue`).
 * `step_dec_pause`: a PAUSING step of the joint loop decreases the tokenizer's termination measure as well (seen
   through a never-pausing policy it is a `Continue` step: `joint_step_star`).
 * `loop_total`: by induction on the measure, the joint loop ends, for every sufficiently large `loop_until_done`
@@ -26,12 +28,9 @@ open H5V.Props.C04TB2 (BenignStrict allowNone)
 open H5V.Model.HtmlTok (Mach Out step clr mu fuelFor feedBom TInv Pol NoPause)
 abbrev TStr := H5V.Model.HtmlTok.Str
 
-/-- the tokenizer's `assert!` that anything but a tag is answered `Continue` -/
-def assertMsg : String := "assert@tokenizer/mod.rs:257: process_token_and_continue"
-
-/-- the failures that are not excluded: a failure of a tree-mutating sink op (`Dom.apply` answered `.error`), the two
-`<meta>`-prescan messages (`BenignStrict`), and the tokenizer's `process_token_and_continue` assertion -/
-def JErr (e : String) : Prop := BenignStrict e ∨ e = assertMsg
+/-- the failures that are not excluded: a failure of a tree-mutating sink op (`Dom.apply` answered `.error`) and the two
+`<meta>`-prescan messages (`BenignStrict`: the C04 judgement without the fuel and the Text-mode allowances) -/
+def JErr (e : String) : Prop := BenignStrict e
 
 /-! ### one token -/
 
@@ -87,7 +86,7 @@ theorem absorb_plain_safe : ∀ (toks : List (TTk × Nat)) (j : JState), TI j.tb
       simp only
       cases hp : (processToken tt line).run j.tb with
       | error e =>
-        refine Or.inr ⟨e, rfl, Or.inl (tok_safe hti ?_ hp)⟩
+        refine Or.inr ⟨e, rfl, tok_safe hti ?_ hp⟩
         intro hm
         rcases hH with h1 | h2
         · exact absurd hm h1
@@ -96,8 +95,13 @@ theorem absorb_plain_safe : ∀ (toks : List (TTk × Nat)) (j : JState), TI j.tb
         obtain ⟨r, tb⟩ := v
         simp only
         by_cases hcnd : (!isTagT tt && r != .continue_) = true
-        · rw [if_pos hcnd]
-          exact Or.inr ⟨_, rfl, Or.inr rfl⟩
+        · -- the tokenizer's `process_token_and_continue` assertion: anything but a tag is answered `Continue`
+          exfalso
+          simp only [Bool.and_eq_true] at hcnd
+          have hr : r = .continue_ := A.processToken_nontag_continue tt line j.tb tb r hp
+            (fun tag e => by subst e; simp [isTagT] at hcnd)
+          rw [hr] at hcnd
+          simp at hcnd
         · rw [if_neg hcnd]
           have hti1 := tok_ti hti hp
           have hg1 := H5V.Props.C03.C03_tb_good_preserved tt line j.tb hg hp
@@ -120,7 +124,7 @@ theorem absorb_tag_safe (t : H5V.Model.HtmlTok.Tag) (l : Nat) (j : JState) (hti 
   simp only [conv]
   cases hp : (processToken (.tag (convTag t)) l).run j.tb with
   | error e =>
-    refine Or.inr ⟨e, rfl, Or.inl (tok_safe hti ?_ hp)⟩
+    refine Or.inr ⟨e, rfl, tok_safe hti ?_ hp⟩
     intro hm
     show (convTag t).kind == .endTag
     have : (convTag t).kind = .endTag := hH hm
@@ -211,5 +215,407 @@ theorem absorb_safe {o : TOpts} {m : Mach} {inp : TStr} {j : JState} (hI : CI m 
         exact Or.inl ⟨jt, (absorb_pauses a.reverse jt (fun p hp => hpa p (List.mem_reverse.mp hp))).1⟩
       · exact Or.inr ⟨e, absorb_append_err he, hje⟩
     · exact Or.inr ⟨e, absorb_append_err he, hje⟩
+
+/-! ### a pausing step decreases the measure as well -/
+
+/-- the tree builder in joint state `j` as a sink that never pauses -/
+def npPol (j : JState) : Pol :=
+  { onTag := fun out tag => np ((polOf j).onTag out tag)
+    cdataOk := (polOf j).cdataOk }
+
+theorem noPause_npPol (j : JState) : NoPause (npPol j) := by
+  intro out tag
+  show np _ ≠ _ ∧ np _ ≠ _
+  cases (polOf j).onTag out tag <;> simp [np]
+
+theorem agrees_npPol (j : JState) : Agrees (npPol j) j (fun _ => True) where
+  suf := fun _ _ _ => trivial
+  tag := fun X tag _ _ jx hjx => by
+    show np ((polOf j).onTag X tag) = _
+    rw [polOf_onTag, hjx]
+  cdata := fun X _ jx hjx => by
+    show (polOf j).cdataOk X = _
+    rw [polOf_cdataOk, hjx]
+
+theorem step_dec_script {o : TOpts} {m : Mach} {inp : TStr} {j j1 : JState} {m1 : Mach} {i1 : TStr} (hi : TInv m)
+    (hm : m.out = []) (hs : step o (polOf j) m inp = .script m1 i1) (ha : absorb m1.out.reverse j = .ok j1) :
+    mu (clr m1) i1 < mu m inp := by
+  have h := (joint_step_star (pol' := npPol j) (noPause_npPol j) (j0 := j) (H := []) hm rfl (m1 := m1) (i1 := i1)
+    (by rw [hs]; rfl) ha).2.2 _ (agrees_npPol j) trivial
+  rw [sh_nil_of hm, hs] at h
+  have h2 := H5V.Model.HtmlTok.step_dec o (npPol j) m inp hi _ _ h
+  exact h2
+
+theorem step_dec_indicator {o : TOpts} {m : Mach} {inp : TStr} {j j1 : JState} {m1 : Mach} {i1 : TStr} (hi : TInv m)
+    (hm : m.out = []) (hs : step o (polOf j) m inp = .indicator m1 i1) (ha : absorb m1.out.reverse j = .ok j1) :
+    mu (clr m1) i1 < mu m inp := by
+  have h := (joint_step_star (pol' := npPol j) (noPause_npPol j) (j0 := j) (H := []) hm rfl (m1 := m1) (i1 := i1)
+    (by rw [hs]; rfl) ha).2.2 _ (agrees_npPol j) trivial
+  rw [sh_nil_of hm, hs] at h
+  have h2 := H5V.Model.HtmlTok.step_dec o (npPol j) m inp hi _ _ h
+  exact h2
+
+/-! ### the loop of `Parser::process` -/
+
+theorem quiet_clr {m : Mach} (h : H5V.Model.HtmlTok.Quiet m) : H5V.Model.HtmlTok.Quiet (clr m) :=
+  ⟨H5V.Model.HtmlTok.tinv_clr.mpr h.tinv, h.nrec, h.sp⟩
+
+/-- how a budgeted computation ends, uniformly in the budget `N ≥ N0`: input drained, tokenizer quiet, invariants —
+or a `JErr` failure -/
+def ResU (r : Nat → Except String (Mach × Chars × JState)) (N0 : Nat) : Prop :=
+  (∃ m' j', JInv m' ∧ H5V.Model.HtmlTok.Quiet m' ∧ CI m' j' ∧ ∀ N, N0 ≤ N → r N = .ok (m', [], j')) ∨
+  (∃ e, JErr e ∧ ∀ N, N0 ≤ N → r N = .error e)
+
+theorem resU_shift {r r' : Nat → Except String (Mach × Chars × JState)} {N0 : Nat} (h : ∀ N, r (N + 1) = r' N)
+    (hr : ResU r' N0) : ResU r (N0 + 1) := by
+  rcases hr with ⟨m', j', a, b, c, hh⟩ | ⟨e, he, hh⟩
+  · refine Or.inl ⟨m', j', a, b, c, fun N hN => ?_⟩
+    obtain ⟨K, rfl⟩ : ∃ K, N = K + 1 := ⟨N - 1, by omega⟩
+    rw [h]; exact hh K (by omega)
+  · refine Or.inr ⟨e, he, fun N hN => ?_⟩
+    obtain ⟨K, rfl⟩ : ∃ K, N = K + 1 := ⟨N - 1, by omega⟩
+    rw [h]; exact hh K (by omega)
+
+theorem isEmpty_false' {c : Chars} (hc : c ≠ []) : c.isEmpty = false := by
+  cases c with
+  | nil => exact (hc rfl).elim
+  | cons _ _ => rfl
+
+theorem pc_succ_ne (o : TOpts) (N : Nat) {m : Mach} (hj : JInv m) {i1 : Chars} (hne : i1 ≠ []) (j : JState) :
+    jprocessChunk o (N + 1) m i1 [] j = afterRun o N (jrun o (fuelFor m i1) m i1 j) := by
+  rw [processChunk_succ, List.append_nil]
+  simp only [isEmpty_false' hne, Bool.false_eq_true, if_false, feedBom_of_inv hj]
+
+theorem pc_succ_nil (o : TOpts) (N : Nat) (m : Mach) (j : JState) :
+    jprocessChunk o (N + 1) m [] [] j = .ok (m, [], j) := by
+  rw [processChunk_succ]
+  rfl
+
+/-- **the joint loop ends**, in the same way for every sufficiently large `loop_until_done` budget -/
+theorem loop_total (o : TOpts) : ∀ (n : Nat) (m : Mach) (inp : Chars) (j : JState), mu m inp < n → JInv m → CI m j →
+    ∀ fuel, mu m inp < fuel → ∃ N0, ResU (fun N => afterRun o N (jrun o fuel m inp j)) N0
+  | 0, _, _, _, h, _, _ => by omega
+  | n + 1, m, inp, j, hn, hj, hI => by
+    intro fuel hf
+    obtain ⟨f, rfl⟩ : ∃ f, fuel = f + 1 := ⟨fuel - 1, by omega⟩
+    rw [run_succ]
+    cases hs : step o (polOf j) m inp with
+    | panic e => exact absurd hs ((H5V.Model.HtmlTok.step_safe o (polOf j) m inp hj.tinv.linv.safe).1 e)
+    | cont m1 i1 =>
+      have hp : (step o (polOf j) m inp).pair? = some (m1, i1) := by rw [hs]; rfl
+      rcases absorb_safe hI hp with ⟨j1, ha, hI1⟩ | ⟨e, ha, he⟩
+      · have hdec := H5V.Model.HtmlTok.step_dec o _ m inp hj.tinv m1 i1 hs
+        simp only [deliver, ha]
+        exact loop_total o n (clr m1) i1 j1 (by rw [H5V.Model.HtmlTok.mu_clr]; omega) (step_jinv hj hp) hI1 f
+          (by rw [H5V.Model.HtmlTok.mu_clr]; omega)
+      · simp only [deliver, ha, afterRun]
+        exact ⟨0, Or.inr ⟨e, he, fun _ _ => rfl⟩⟩
+    | suspend m1 i1 =>
+      have hp : (step o (polOf j) m inp).pair? = some (m1, i1) := by rw [hs]; rfl
+      have hnil := H5V.Model.HtmlTok.step_suspend_nil o _ m inp hj.tinv m1 i1 hs
+      subst hnil
+      have hq := H5V.Model.HtmlTok.step_stop_quiet o _ m inp hj.tinv m1 [] hp (by rw [hs]; simp)
+      rcases absorb_safe hI hp with ⟨j1, ha, hI1⟩ | ⟨e, ha, he⟩
+      · simp only [deliver, ha, afterRun]
+        exact ⟨0, Or.inl ⟨clr m1, j1, step_jinv hj hp, quiet_clr hq, hI1, fun _ _ => rfl⟩⟩
+      · simp only [deliver, ha, afterRun]
+        exact ⟨0, Or.inr ⟨e, he, fun _ _ => rfl⟩⟩
+    | script m1 i1 =>
+      have hp : (step o (polOf j) m inp).pair? = some (m1, i1) := by rw [hs]; rfl
+      have hq := H5V.Model.HtmlTok.step_stop_quiet o _ m inp hj.tinv m1 i1 hp (by rw [hs]; simp)
+      have hj1 := step_jinv hj hp
+      rcases absorb_safe hI hp with ⟨j1, ha, hI1⟩ | ⟨e, ha, he⟩
+      · simp only [deliver, ha, afterRun]
+        by_cases hne : i1 = []
+        · subst hne
+          refine ⟨1, Or.inl ⟨clr m1, j1, hj1, quiet_clr hq, hI1, fun N hN => ?_⟩⟩
+          obtain ⟨N', rfl⟩ : ∃ N', N = N' + 1 := ⟨N - 1, by omega⟩
+          exact pc_succ_nil o N' _ _
+        · have hdec := step_dec_script hj.tinv hI.out hs ha
+          obtain ⟨N0, hN0⟩ := loop_total o n (clr m1) i1 j1 (by omega) hj1 hI1 (fuelFor (clr m1) i1)
+            (H5V.Model.HtmlTok.mu_lt_fuelFor _ _)
+          exact ⟨N0 + 1, resU_shift (fun N => pc_succ_ne o N hj1 hne j1) hN0⟩
+      · simp only [deliver, ha, afterRun]
+        exact ⟨0, Or.inr ⟨e, he, fun _ _ => rfl⟩⟩
+    | indicator m1 i1 =>
+      have hp : (step o (polOf j) m inp).pair? = some (m1, i1) := by rw [hs]; rfl
+      have hq := H5V.Model.HtmlTok.step_stop_quiet o _ m inp hj.tinv m1 i1 hp (by rw [hs]; simp)
+      have hj1 := step_jinv hj hp
+      rcases absorb_safe hI hp with ⟨j1, ha, hI1⟩ | ⟨e, ha, he⟩
+      · simp only [deliver, ha, afterRun]
+        by_cases hne : i1 = []
+        · subst hne
+          refine ⟨1, Or.inl ⟨clr m1, j1, hj1, quiet_clr hq, hI1, fun N hN => ?_⟩⟩
+          obtain ⟨N', rfl⟩ : ∃ N', N = N' + 1 := ⟨N - 1, by omega⟩
+          exact pc_succ_nil o N' _ _
+        · have hdec := step_dec_indicator hj.tinv hI.out hs ha
+          obtain ⟨N0, hN0⟩ := loop_total o n (clr m1) i1 j1 (by omega) hj1 hI1 (fuelFor (clr m1) i1)
+            (H5V.Model.HtmlTok.mu_lt_fuelFor _ _)
+          exact ⟨N0 + 1, resU_shift (fun N => pc_succ_ne o N hj1 hne j1) hN0⟩
+      · simp only [deliver, ha, afterRun]
+        exact ⟨0, Or.inr ⟨e, he, fun _ _ => rfl⟩⟩
+
+/-! ### `Parser::finish` -/
+
+theorem endInv_clr {m : Mach} {inp : TStr} (h : H5V.Model.HtmlTok.EndInv m inp) : H5V.Model.HtmlTok.EndInv (clr m) inp :=
+  ⟨H5V.Model.HtmlTok.tinv_clr.mpr h.tinv, h.cr, h.plain⟩
+
+/-- **the final `run` of `Tokenizer::end`** (no `>` and no `&` left to read: no tag is delivered, the sink cannot pause
+it) ends with `Done` and an empty queue, or the delivery of its tokens fails with `JErr` -/
+theorem eof_total (o : TOpts) : ∀ (n : Nat) (m : Mach) (inp : Chars) (j : JState), mu m inp < n →
+    H5V.Model.HtmlTok.EndInv m inp → CI m j → ∀ fuel, mu m inp < fuel →
+    (∃ m' j', jrun o fuel m inp j = .done m' [] j' ∧ CI m' j') ∨ (∃ e, jrun o fuel m inp j = .panic e ∧ JErr e)
+  | 0, _, _, _, h, _, _ => by omega
+  | n + 1, m, inp, j, hn, he, hI => by
+    intro fuel hf
+    obtain ⟨f, rfl⟩ : ∃ f, fuel = f + 1 := ⟨fuel - 1, by omega⟩
+    rw [run_succ]
+    have hend := H5V.Model.HtmlTok.step_end o (polOf j) m inp he
+    cases hs : step o (polOf j) m inp with
+    | panic e => exact absurd hs ((H5V.Model.HtmlTok.step_safe o (polOf j) m inp he.tinv.linv.safe).1 e)
+    | cont m1 i1 =>
+      have hp : (step o (polOf j) m inp).pair? = some (m1, i1) := by rw [hs]; rfl
+      rcases absorb_safe hI hp with ⟨j1, ha, hI1⟩ | ⟨e, ha, hje⟩
+      · have hdec := H5V.Model.HtmlTok.step_dec o _ m inp he.tinv m1 i1 hs
+        simp only [deliver, ha]
+        exact eof_total o n (clr m1) i1 j1 (by rw [H5V.Model.HtmlTok.mu_clr]; omega) (endInv_clr (hend.2 m1 i1 hs)) hI1 f
+          (by rw [H5V.Model.HtmlTok.mu_clr]; omega)
+      · refine Or.inr ⟨e, ?_, hje⟩
+        simp only [deliver, ha]
+    | suspend m1 i1 =>
+      have hp : (step o (polOf j) m inp).pair? = some (m1, i1) := by rw [hs]; rfl
+      have hnil := H5V.Model.HtmlTok.step_suspend_nil o _ m inp he.tinv m1 i1 hs
+      subst hnil
+      rcases absorb_safe hI hp with ⟨j1, ha, hI1⟩ | ⟨e, ha, hje⟩
+      · refine Or.inl ⟨clr m1, j1, ?_, hI1⟩
+        simp only [deliver, ha]
+      · refine Or.inr ⟨e, ?_, hje⟩
+        simp only [deliver, ha]
+    | script m1 i1 =>
+      have h1 := hend.1
+      rw [hs] at h1
+      simp [H5V.Model.HtmlTok.R.isPause] at h1
+    | indicator m1 i1 =>
+      have h1 := hend.1
+      rw [hs] at h1
+      simp [H5V.Model.HtmlTok.R.isPause] at h1
+
+/-- `eof_step`, `TreeBuilder::end` -/
+theorem tail_total (o : TOpts) (m : Mach) (j : JState) (hI : CI m j) :
+    (∃ jf, finishTail o m [] j = .ok jf) ∨ (∃ e, finishTail o m [] j = .error e ∧ JErr e) := by
+  unfold finishTail
+  simp only [List.isEmpty_nil, Bool.not_true, Bool.false_eq_true, if_false]
+  obtain ⟨m3, h3⟩ := H5V.Model.HtmlTok.eofLoop_total o m
+  rw [h3]
+  simp only
+  obtain ⟨new, hnew, hnt⟩ := eofLoop_no_tag o 8 m m3 h3
+  rw [hI.out, List.append_nil] at hnew
+  have hH : j.tb.mode ≠ .text ∨ ∀ p ∈ m3.out.reverse, AllowedInText p.1 ∨ p.1 = .eof := by
+    by_cases hmode : j.tb.mode = .text
+    · obtain ⟨new', hnew', hal⟩ := eofLoop_textSt o 8 m m3 (hI.text hmode) h3
+      rw [hI.out, List.append_nil] at hnew'
+      exact Or.inr (fun p hp => hal p (by rw [← hnew']; exact List.mem_reverse.mp hp))
+    · exact Or.inl hmode
+  rcases absorb_plain_safe _ j hI.ti hI.good (fun p hp => hnt p (by rw [← hnew]; exact List.mem_reverse.mp hp)) hH
+    with ⟨j3, hj3⟩ | ⟨e, he, hje⟩
+  · rw [hj3]
+    simp only
+    obtain ⟨s', hs'⟩ := H5V.Props.C04TB.C04_tb_end_total j3.tb
+    rw [hs']
+    exact Or.inl ⟨_, rfl⟩
+  · rw [he]
+    exact Or.inr ⟨e, rfl, hje⟩
+
+end H5V.Lemmas.JointTotal
+
+namespace H5V.Lemmas.JointTotal.Fin
+open H5V.Model.HtmlTok
+open H5V.Model.HtmlTB.Joint (JState absorb)
+open H5V.Lemmas.JointChunk (TOpts finishPrologue finishMain finishTail finish_eq jrun)
+open H5V.Lemmas.ParseSpec (CrInv TextSt crInv_of_none crEof_processCharRef_out crEof_processCharRef_textSt
+  isTagTok AllowedInText absorb_plain absorb_tbRuns)
+open H5V.Lemmas.JointTotal (CI JErr absorb_plain_safe endInv_clr eof_total tail_total)
+
+/-- the flush of a pending character reference at the start of `Tokenizer::end` -/
+theorem prologue_total (o : TOpts) (m : Mach) (j : JState) (hq : Quiet m) (hI : CI m j) :
+    (∃ m1 inp j1, finishPrologue o m j = .ok (m1, inp, j1) ∧ EndInv m1 inp ∧ CI m1 j1) ∨
+    (∃ e, finishPrologue o m j = .error e ∧ JErr e) := by
+  have hi := hq.tinv
+  unfold finishPrologue
+  cases hcr : m.charRef with
+  | none =>
+    simp only
+    refine Or.inl ⟨m, [], j, rfl, ⟨hi, hcr, pend_plain (fun hx => ?_) (hq.sp hcr)
+      (fun x hx => absurd hx List.not_mem_nil)⟩, hI⟩
+    rw [hq.nrec] at hx; simp at hx
+  | some cr =>
+    obtain ⟨c1, c2, c3⟩ := hi.linv.cr cr hcr
+    have hstate := crStateOk_facts (hi.linv.safe.crState cr hcr)
+    obtain ⟨m1, i1, chars, hce⟩ := crEof_ok o m cr c1 c2 c3 (hi.linv.safe.crRegs cr hcr)
+    obtain ⟨ht, hnp⟩ := finish_charRef_inv o m cr hi.linv hcr m1 i1 chars hce
+    obtain ⟨_, _, l3, _, l5, _⟩ := crEof_lines o m cr c1 c2 c3 m1 i1 chars hce
+    have hback := crEof_back o m cr c1 c2 c3 (hi.crt cr hcr) m1 i1 chars hce
+    have hpa := processCharRef_noPause (m1.setCharRef none) chars
+    have hp := processCharRef_fields (m1.setCharRef none) chars
+    have hpc0 := processCharRef_charRef (m1.setCharRef none) chars
+    simp only [hce]
+    cases hpc : processCharRef (m1.setCharRef none) chars with
+    | mk m2 sig =>
+      rw [hpc] at ht hnp hpa hp hpc0
+      simp only at hp hpc0
+      cases sig with
+      | cont =>
+        simp only
+        have hcr2 : m2.charRef = none := by simpa using hpc0
+        have hst2 : m2.state = m.state := by rw [hp.1]; simp only [setCharRef_state]; exact l5
+        have hrec2 : m2.reconsume = false := by rw [hp.2.2.2.1]; simpa using l3
+        have hend : EndInv m2 i1 := by
+          refine ⟨ht, hcr2, pend_plain (fun hx => ?_) ?_ hback⟩
+          · rw [hrec2] at hx; simp at hx
+          · rw [stash_plain hcr2 (by rw [hst2]; exact hstate.1) (by rw [hst2]; exact hstate.2.1)]
+            intro x hx; exact absurd hx List.not_mem_nil
+        -- the delivery
+        obtain ⟨new, hnew, hk, _, _⟩ := crEof_processCharRef_out o m cr m1 i1 chars m2 .cont hce hpc
+        rw [hI.out, List.append_nil] at hnew
+        have hnt : ∀ p ∈ m2.out.reverse, isTagTok p.1 = false := by
+          intro p hp
+          have := hk p (by rw [← hnew]; exact List.mem_reverse.mp hp)
+          rcases this with ⟨x, e⟩ | ⟨e', e⟩ | e <;> rw [e] <;> rfl
+        have hH : j.tb.mode ≠ .text ∨ ∀ p ∈ m2.out.reverse, AllowedInText p.1 ∨ p.1 = .eof := by
+          by_cases hmode : j.tb.mode = .text
+          · obtain ⟨new', hnew', hal, _, _, _⟩ :=
+              crEof_processCharRef_textSt o m (hI.text hmode) cr m1 i1 chars m2 .cont hcr hce hpc
+            rw [hI.out, List.append_nil] at hnew'
+            exact Or.inr (fun p hp => Or.inl (hal p (by rw [← hnew']; exact List.mem_reverse.mp hp)))
+          · exact Or.inl hmode
+        rcases absorb_plain_safe _ j hI.ti hI.good hnt hH with ⟨j1, hj1⟩ | ⟨e, he, hje⟩
+        · rw [hj1]
+          simp only
+          refine Or.inl ⟨clr m2, i1, j1, rfl, endInv_clr hend, ?_⟩
+          obtain ⟨g1, g2⟩ := absorb_plain _ j j1 hj1 hI.ti hI.good hnt hH
+          obtain ⟨h3, h4⟩ := (absorb_tbRuns _ _ _ hj1).inv hI.ti hI.good
+          refine ⟨rfl, crInv_of_none hcr2, fun hm1 => ?_, h3, h4⟩
+          by_cases hmode : j.tb.mode = .text
+          · obtain ⟨_, _, _, _, t1, _⟩ :=
+              crEof_processCharRef_textSt o m (hI.text hmode) cr m1 i1 chars m2 .cont hcr hce hpc
+            exact t1
+          · exact absurd hm1 (g2 hmode)
+        · rw [he]
+          exact Or.inr ⟨e, rfl, hje⟩
+      | script => simp [Sig.isPause] at hpa
+      | indicator => simp [Sig.isPause] at hpa
+      | panic e => exact absurd rfl (hnp e)
+
+/-- **`Parser::finish` (`Tokenizer::end`, `TreeBuilder::end`) completes or fails with `JErr`** -/
+theorem finish_total (o : TOpts) (m : Mach) (j : JState) (hq : Quiet m) (hI : CI m j) :
+    (∃ jf, H5V.Model.HtmlTB.Joint.finish o m j = .ok jf) ∨
+    (∃ e, H5V.Model.HtmlTB.Joint.finish o m j = .error e ∧ JErr e) := by
+  rw [finish_eq]
+  rcases prologue_total o m j hq hI with ⟨m1, inp, j1, hp, hend, hI1⟩ | ⟨e, he, hje⟩
+  · rw [hp]
+    simp only
+    unfold finishMain
+    have hI2 : CI (m1.setAtEof true) j1 := ⟨hI1.out, hI1.cr, hI1.text, hI1.ti, hI1.good⟩
+    rcases eof_total o _ (m1.setAtEof true) inp j1 (Nat.lt_succ_self _) (hend.setAtEof true) hI2 _ (mu_lt_fuelFor _ _)
+      with ⟨m2, j2, hr, hI3⟩ | ⟨e, hr, hje⟩
+    · rw [hr]
+      exact tail_total o m2 j2 hI3
+    · rw [hr]
+      exact Or.inr ⟨e, rfl, hje⟩
+  · rw [he]
+    exact Or.inr ⟨e, rfl, hje⟩
+
+end H5V.Lemmas.JointTotal.Fin
+
+namespace H5V.Lemmas.JointTotal
+open H5V.Model.HtmlTB
+open H5V.Lemmas.TBSafe (TI)
+open H5V.Model.HtmlTB.Joint (JState absorb polOf)
+open H5V.Lemmas.JointChunk
+open H5V.Lemmas.ParseSpec
+open H5V.Props.C03 (GoodS parseChunks feedChunks Start jinv_feedBom feedBom_fst)
+open H5V.Model.HtmlTok (Mach mu fuelFor feedBom Quiet)
+
+/-- what holds of the tokenizer and the tree builder between two chunks -/
+structure Between (m : Mach) (j : JState) : Prop where
+  start : Start m ∨ JInv m
+  quiet : Quiet m
+  ci : CI m j
+
+/-- how the `Parser::process` calls end, uniformly in the budget -/
+def ResB (r : Nat → Except String (Mach × Chars × JState)) (N0 : Nat) : Prop :=
+  (∃ m' j', Between m' j' ∧ ∀ N, N0 ≤ N → r N = .ok (m', [], j')) ∨ (∃ e, JErr e ∧ ∀ N, N0 ≤ N → r N = .error e)
+
+/-- **one `Parser::process` call** -/
+theorem process_total (o : TOpts) (m0 : Mach) (j0 : JState) (hb : Between m0 j0) (s : Chars) :
+    ∃ N0, ResB (fun N => jprocessChunk o N m0 [] s j0) N0 := by
+  by_cases hne : s = []
+  · subst hne
+    refine ⟨1, Or.inl ⟨m0, j0, hb, fun N hN => ?_⟩⟩
+    obtain ⟨K, rfl⟩ : ∃ K, N = K + 1 := ⟨N - 1, by omega⟩
+    exact pc_succ_nil o K _ _
+  · have hji : JInv (feedBom m0 s).1 := by
+      rcases hb.start with h | h
+      · exact jinv_feedBom h hne
+      · rw [feedBom_of_inv h]; exact h
+    have hci : CI (feedBom m0 s).1 j0 := by
+      rcases feedBom_fst m0 s with e | e <;> rw [e]
+      · exact hb.ci
+      · exact ⟨hb.ci.out, hb.ci.cr, hb.ci.text, hb.ci.ti, hb.ci.good⟩
+    obtain ⟨N0, hN0⟩ := loop_total o _ (feedBom m0 s).1 (feedBom m0 s).2 j0 (Nat.lt_succ_self _) hji hci
+      (fuelFor (feedBom m0 s).1 (feedBom m0 s).2) (H5V.Model.HtmlTok.mu_lt_fuelFor _ _)
+    have hshift : ∀ N, jprocessChunk o (N + 1) m0 [] s j0 =
+        afterRun o N (jrun o (fuelFor (feedBom m0 s).1 (feedBom m0 s).2) (feedBom m0 s).1 (feedBom m0 s).2 j0) := by
+      intro N
+      rw [processChunk_succ, List.nil_append]
+      simp only [isEmpty_false' hne, Bool.false_eq_true, if_false]
+    refine ⟨N0 + 1, ?_⟩
+    rcases resU_shift (r := fun N => jprocessChunk o N m0 [] s j0) hshift hN0 with ⟨m', j', h1, h2, h3, h⟩ | ⟨e, he, h⟩
+    · exact Or.inl ⟨m', j', ⟨Or.inr h1, h2, h3⟩, h⟩
+    · exact Or.inr ⟨e, he, h⟩
+
+/-- **all the `Parser::process` calls of a chunked parse** -/
+theorem feedChunks_total (o : TOpts) : ∀ (cs : List Chars) (m0 : Mach) (j0 : JState), Between m0 j0 →
+    ∃ N0, ResB (fun N => feedChunks o N cs m0 [] j0) N0
+  | [], m0, j0, hb => ⟨0, Or.inl ⟨m0, j0, hb, fun _ _ => rfl⟩⟩
+  | c :: cs, m0, j0, hb => by
+    obtain ⟨N1, hN1⟩ := process_total o m0 j0 hb c
+    rcases hN1 with ⟨m', j', hb', h⟩ | ⟨e, he, h⟩
+    · obtain ⟨N2, hN2⟩ := feedChunks_total o cs m' j' hb'
+      refine ⟨max N1 N2, ?_⟩
+      rcases hN2 with ⟨m'', j'', hb'', h2⟩ | ⟨e, he, h2⟩
+      · refine Or.inl ⟨m'', j'', hb'', fun N hN => ?_⟩
+        simp only [feedChunks]
+        rw [show jprocessChunk o N m0 [] c j0 = _ from h N (by omega)]
+        exact h2 N (by omega)
+      · refine Or.inr ⟨e, he, fun N hN => ?_⟩
+        simp only [feedChunks]
+        rw [show jprocessChunk o N m0 [] c j0 = _ from h N (by omega)]
+        exact h2 N (by omega)
+    · refine ⟨N1, Or.inr ⟨e, he, fun N hN => ?_⟩⟩
+      simp only [feedChunks]
+      rw [show jprocessChunk o N m0 [] c j0 = _ from h N hN]
+
+/-- **the whole chunked parse**: the `Parser::process` calls, the final `loop_until_done`, `Parser::finish` -/
+theorem parse_total (o : TOpts) (cs : List Chars) (m0 : Mach) (j0 : JState) (hb : Between m0 j0) :
+    ∃ N0, (∃ jf, ∀ N, N0 ≤ N → parseChunks o N m0 j0 cs = .ok jf) ∨
+      (∃ e, JErr e ∧ ∀ N, N0 ≤ N → parseChunks o N m0 j0 cs = .error e) := by
+  obtain ⟨N1, hN1⟩ := feedChunks_total o cs m0 j0 hb
+  rcases hN1 with ⟨m', j', hb', h⟩ | ⟨e, he, h⟩
+  · have key : ∀ N, N1 + 1 ≤ N → parseChunks o N m0 j0 cs = H5V.Model.HtmlTB.Joint.finish o m' j' := by
+      intro N hN
+      obtain ⟨K, rfl⟩ : ∃ K, N = K + 1 := ⟨N - 1, by omega⟩
+      unfold parseChunks
+      rw [show feedChunks o (K + 1) cs m0 [] j0 = _ from h (K + 1) (by omega)]
+      simp only
+      rw [pc_succ_nil]
+      simp only [List.isEmpty_nil, Bool.not_true, Bool.false_eq_true, if_false]
+    refine ⟨N1 + 1, ?_⟩
+    rcases Fin.finish_total o m' j' hb'.quiet hb'.ci with ⟨jf, hf⟩ | ⟨e, hf, he⟩
+    · exact Or.inl ⟨jf, fun N hN => by rw [key N hN, hf]⟩
+    · exact Or.inr ⟨e, he, fun N hN => by rw [key N hN, hf]⟩
+  · refine ⟨N1, Or.inr ⟨e, he, fun N hN => ?_⟩⟩
+    unfold parseChunks
+    rw [show feedChunks o N cs m0 [] j0 = _ from h N hN]
 
 end H5V.Lemmas.JointTotal
